@@ -59,10 +59,11 @@ add("C11", "Hypothesis-generated budgets / episode scripts / continuation calls 
     "recorded findings: batch collectors overshoot by less than one collection, zero-budget UnboundLocalError in the schedulers.",
     "DESIGN.md §5 C11")
 
-add("C02", "Model-based testing: Hypothesis-generated add/sample/sweep/len/select-task op lists vs an independent list-based FIFO reference model (stub generators enumerate every live index); atheris campaign in the thorough tier",
+add("C02", "Model-based testing: Hypothesis-generated add/sample/sweep/len/select-task/save(pickle, deepcopy) op lists vs an independent list-based FIFO reference model (stub generators enumerate every live index); atheris campaign in the thorough tier",
     "Generated operation sequences over ReplayBuffer, LAP, PER and the multi-task wrapper (capacities 1-12, six key/dtype/shape schemas); "
     "after every op the real buffer is compared with a list model: length, slot contents as bytes of the storage dtype, every sampled row "
-    "decoding to exactly one live transition in all fields, task isolation, invalid select_task rejected without effect.",
+    "decoding to exactly one live transition in all fields, task isolation, invalid select_task rejected without effect, reads "
+    "(len, sample, pickle / deep copy of the running buffer) leave the storage byte-identical.",
     "In-range values only; priorities are not updated here (C08); the slot-layout clause (i mod N) and the stub sweeps are tied to the "
     "documented ring layout.",
     "DESIGN.md §5 C02")
@@ -78,7 +79,9 @@ add("C06", "Hypothesis-generated parameter trees / tau and training histories; s
     "Function level: soft/hard updates over ten module kinds, tau incl. 0 and 1, compared leaf by leaf with tau*online+(1-tau)*target "
     "(<= 2 ulp, exact at 0/1), online unchanged, no shared variables. History level: Nature-DQN, DDQN, PER, DDPG, TD3, TD3+LAP, SAC, TD7 "
     "(also _train_step directly) and MR.Q with generated delays/tau/warm-up: every byte change of a target must equal the rule applied to "
-    "the previous target and the online network of that moment, changes only on the documented cadence, none before learning starts; "
+    "the previous target and the online network of that moment, changes only on the documented cadence, none before learning starts "
+    "and none between the hand-over of the networks and the first environment step of a call (supplied targets are clones or differ "
+    "from the online networks in every leaf; MR.Q also as two calls continuing on a period boundary); "
     "target=None twin runs bit-equal and storage-disjoint.",
     "Delays 1-7, <= 100 steps; cadence phase-free except where a phase is documented (DESIGN §11); magnitudes capped at 1e30.",
     "DESIGN.md §5 C06, §11")
@@ -168,7 +171,8 @@ add("C03", "Hypothesis-generated batches / parameters / hyper-parameters per los
     "DESIGN.md §5 C03")
 
 add("C12", "Hypothesis-generated batches / advantages / old log-probabilities placing ratios on each side of the clip range / policy heads and critic shapes vs float64 value references and independently written jax objectives for gradients",
-    "Policy-gradient pseudo-losses (REINFORCE with/without baseline, actor-critic, A2C), ppo_loss (value, critic gradient, actor gradient "
+    "Policy-gradient pseudo-losses (REINFORCE with/without baseline, actor-critic, A2C; jax or numpy arguments, evaluated once or twice "
+    "on the same arguments, which must stay unmodified), ppo_loss (value, critic gradient, actor gradient "
     "at unchanged parameters / all samples clipped on the favoured side / mixed batches, with an exact zero-weight clause for "
     "favoured-clipped samples), DPG / SALE / MR.Q policy losses, sac_actor_loss with (N,1) and (N,) critics, temperature loss and the sign "
     "of the first alpha step; the jitted update wrappers must move the actor by -lr*grad and leave critics/embeddings byte-identical.",
